@@ -12,3 +12,6 @@ import Norad.Props.C17
 #print axioms C17.layers_after_filter
 #print axioms C17.call_idempotent
 #print axioms C17.part_call_touches_only_its_switch
+#print axioms C17.source_request_builders_eq_model
+#print axioms C17.source_layer_filter_eq_model
+#print axioms C17.source_partial_eq_restricted_full
